@@ -451,7 +451,7 @@ package core
 //@   assert[C03.code_object_result_merges_into_copy] at "append(acc.Bss, more)": is(x, map[string]interface{}) && fresh(more)
 
 // package-level values that are never reassigned
-//@ const-global Complete, ThrottleOverflow, ThrottleExhausted, Halt
+//@ const-global Complete, ThrottleOverflow, ThrottleExhausted, Halt, NoLocationProvider, AncestorLoop
 //@ ghost actionErr bool gate
 //@ func (*Location).ExecAction
 //@   ghost-ensures actionErr == (old(actionErr) || result1 != nil)
